@@ -297,8 +297,8 @@ func (r *recConn) ReadMsgUDP(b, oob []byte) (int, int, int, *net.UDPAddr, error)
 	<-r.closed
 	return 0, 0, 0, nil, net.ErrClosed
 }
-func (r *recConn) WriteTo(p []byte, addr net.Addr) (int, error)         { return r.Write(p) }
-func (r *recConn) WriteToUDP(b []byte, addr *net.UDPAddr) (int, error)  { return r.Write(b) }
+func (r *recConn) WriteTo(p []byte, addr net.Addr) (int, error)        { return r.Write(p) }
+func (r *recConn) WriteToUDP(b []byte, addr *net.UDPAddr) (int, error) { return r.Write(b) }
 func (r *recConn) WriteMsgUDP(b, oob []byte, addr *net.UDPAddr) (int, int, error) {
 	n, err := r.Write(b)
 	return n, 0, err
